@@ -125,9 +125,10 @@ def _call(C, ew: Optional[int], es: Optional[int], gw: int, gs: int) -> Tuple[in
         if kind is None:
             raise RuntimeError("0-4-1-1 names an unknown variable: " + msg)
         reported = int(m.group(2))
-        lo, hi = (C.MIN_DECIMAL_SCALE, C.MAX_DECIMAL_SCALE) if kind == 1 else (C.MIN_DECIMAL_WIDTH, C.MAX_DECIMAL_WIDTH)
-        if (int(m.group(3)), int(m.group(4)), int(m.group(5))) != (lo, hi, C.DISABLE_VALUE):
-            raise RuntimeError(f"0-4-1-1 message reports the bounds {m.groups()[2:]} but the constants are {(lo, hi, C.DISABLE_VALUE)}")
+        # the lower bound shown may be the constant or (width below scale) the effective scale: only max / disable are checked
+        hi = C.MAX_DECIMAL_SCALE if kind == 1 else C.MAX_DECIMAL_WIDTH
+        if (int(m.group(4)), int(m.group(5))) != (hi, C.DISABLE_VALUE):
+            raise RuntimeError(f"0-4-1-1 message reports the bounds {m.groups()[2:]} but the constants are {(hi, C.DISABLE_VALUE)}")
     return kind, reported, C.DECIMAL_WIDTH, C.DECIMAL_SCALE
 
 
